@@ -11,14 +11,17 @@ sys.path.insert(0, os.path.dirname(os.path.abspath(__file__)))
 SBX = "@"       # stands for the absolute sandbox path in names (node names, stale-file paths)
 
 # ----------------------------------------------------------------------------------------------- model
-def node(kind, path, filt=()):
-    return dict(kind=kind, path=path, filt=list(filt))
+def node(kind, path, filt=(), ts=False, mut=False):
+    """ts: a virtual node carrying its producer's run time (is-command-timestamp); mut: a file other commands modify in
+    place (is-mutated: only its existence counts for the validity of its producer's result)"""
+    return dict(kind=kind, path=path, filt=list(filt), ts=ts, mut=mut)
 
 def cmd(tool="shell", ins=(), outs=(), tag="", reads=(), failif="", failpt="before", aood=False, ami=False, amo=False,
-        extra=(), env=(), signature="", depstyle="makefile", depsok=True, expected=(), roots=(), spell=None, inherit_env=True, keep=False):
+        extra=(), env=(), signature="", depstyle="makefile", depsok=True, expected=(), roots=(), spell=None, inherit_env=True, keep=False, mutates=""):
     """a command record; `sigx` (what the specification treats as the opaque signature-relevant remainder) is derived"""
     c = dict(tool=tool, ins=list(ins), outs=list(outs), tag=tag, reads=list(reads), failif=failif, failpt=failpt,
-             aood=aood, ami=ami, amo=amo, depsok=depsok, expected=list(expected), roots=list(roots), keep=keep)
+             aood=aood, ami=ami, amo=amo, depsok=depsok, expected=list(expected), roots=list(roots), keep=keep,
+             mutates=mutates)         # node (a file some other command creates) this body appends its tag to, in place
     c["_extra"] = list(extra); c["_env"] = [list(e) for e in env]; c["_signature"] = signature; c["_depstyle"] = depstyle
     c["_spell"] = spell or {}; c["_inherit_env"] = inherit_env
     c["_depfmt"] = depstyle          # the format the body actually writes (normally the declared style)
@@ -35,7 +38,7 @@ def sigx_of(name, c, idx):
     if c["_signature"]:
         return dict(explicit=c["_signature"])
     # the argument vector is an injective function of these fields
-    return dict(tag=c["tag"], reads=c["reads"], failif=c["failif"], failpt=c["failpt"], failhow=c["_failhow"], depsok=c["depsok"], idx=idx, keep=c["keep"], rel=c.get("_relreads", False), wd=c.get("_wd", ""), multi=c.get("_multirule", False),
+    return dict(tag=c["tag"], reads=c["reads"], failif=c["failif"], failpt=c["failpt"], failhow=c["_failhow"], depsok=c["depsok"], idx=idx, keep=c["keep"], mutates=c.get("mutates", ""), rel=c.get("_relreads", False), wd=c.get("_wd", ""), multi=c.get("_multirule", False),
                 extra=c["_extra"], env=c["_env"], depstyle=c["_depstyle"] if c["reads"] else "", depfmt=c["_depfmt"] if c["reads"] else "",
                 inherit=c["_inherit_env"])
 
@@ -121,6 +124,10 @@ def body_script(name, c, idx, nodes, abs_prefix):
         else:
             L.append("{ " + "; ".join(parts) + "; } > " + P(o))
             L += stamp
+    if c.get("mutates"):       # in-place modification of a file created by another command (fails if it is not there)
+        m = c["mutates"]; par = os.path.dirname(nodes[m]["path"])
+        L.append("if [ -f %s ] && [ ! -L %s ]; then printf '%%s' %s >> %s; touch -d @$((V+%d)) %s; %selse exit 1; fi" % (
+            P(m), P(m), shlex.quote("+" + c["tag"]), P(m), idx, P(m), ("touch -d @$((V+%d)) %s; " % (idx, shlex.quote(par))) if par else ""))
     if c["reads"]:
         L.append(sh_printf_bytes(deps_bytes(c, nodes, abs_prefix)) + " > " + shlex.quote((c["_wd"] + "/" if c.get("_wd") else "") + name + ".d"))
     if c["failif"] and c["failpt"] == "after": L.append("if [ -e %s ]; then %s; fi" % (P(c["failif"]), c["_failhow"]))
@@ -154,6 +161,8 @@ def render(desc, nodes, abs_prefix):
         nd = nodes[n]; sp = nd.get("spell", "")
         attrs = []
         if nd["kind"] == "virtual" and not (n.startswith("<") and n.endswith(">")): attrs.append("is-virtual: true")
+        if nd.get("ts"): attrs.append("is-command-timestamp: true")
+        if nd.get("mut"): attrs.append("is-mutated: true")
         if nd["kind"] == "dir":
             if sp == "type": attrs.append("type: directory")
             elif sp == "isdir" or not n.endswith("/"): attrs.append("is-directory: true")
@@ -219,6 +228,7 @@ def script_lines(case, abs_prefix):
         elif op == "rm": L.append("RM\t" + hx(st[1]))
         elif op == "mkdir": L.append("MKDIR\t" + hx(st[1]))
         elif op == "rename": L.append("RENAME\t%s\t%s" % (hx(st[1]), hx(st[2])))
+        elif op == "skip": L.append("SKIP\t" + "\t".join(hx(x) for x in st[1]))
         elif op == "build": L.append("BUILD\t" + hx(st[1]))
         elif op == "buildnode": L.append("BUILDNODE\t" + hx(st[1]))
         else: raise ValueError(op)
@@ -280,20 +290,21 @@ def weave(case, evs):
             fs[ch["p"]].update(t=ch["t"], c=ch["c"])
     out.append(dict(e="Reset", nodes=case["nodes_spec"], paths=case["paths"], fs=fs))
     steps = iter(case["steps"])
-    cur = None; j = i + 1; cof = False
+    cur = None; j = i + 1; cof = False; skip = []
     while j < len(evs):
         e = evs[j]; j += 1
         k = e["e"]
         if k == "Step":
             if e["op"] in ("OUTPUTS",): continue
             cur = next(steps)
+            if cur[0] == "skip": skip = list(cur[1])
         elif k == "Frontend":
             out.append(dict(e="Frontend", desc=spec_desc(cur[1]), db=e["db"])); cof = len(cur) > 4 and bool(cur[4])
         elif k == "Mutate":
             out.append(dict(e="Mutate", changes=e["changes"]))
         elif k == "Build":
             needs, seq, removed = [], [], []
-            out.append(dict(e="Build", k=key_rec(e["k"]), cof=cof))
+            out.append(dict(e="Build", k=key_rec(e["k"]), cof=cof, skip=skip)); skip = []
             while j < len(evs) and evs[j]["e"] != "BuildEnd":
                 x = evs[j]; j += 1
                 if x["e"] == "NeedsRun": needs.append(dict(k=key_rec(x["k"]), reason=x["reason"], input=key_rec(x["input"]) if x["input"] else dict(t="-", n="")))
@@ -325,6 +336,6 @@ def finish_case(case):
             fs0.setdefault(d, dict(t="dir" if fs0[p]["t"] != "none" else "none", c=""))
             if fs0[p]["t"] != "none": fs0[d]["t"] = "dir"
             d = os.path.dirname(d)
-    case["nodes_spec"] = {n: dict(kind=v["kind"], path=v["path"], filt=v["filt"], inner=v.get("inner", ""), rootnode=v.get("rootnode", "")) for n, v in case["nodes"].items()}
+    case["nodes_spec"] = {n: dict(kind=v["kind"], path=v["path"], filt=v["filt"], inner=v.get("inner", ""), rootnode=v.get("rootnode", ""), ts=bool(v.get("ts")), mut=bool(v.get("mut"))) for n, v in case["nodes"].items()}
     case.setdefault("paths", {})
     return case
